@@ -356,6 +356,9 @@ func one(raw json.RawMessage) interface{} {
 				os.WriteFile(p, []byte(text), 0o644)
 			}
 			f := cs.Files[i]
+			if f.Id == "ovl" {
+				roots = append(roots, "ovl.Store.caller", "ovl.Store.put")
+			}
 			if javaproj.Selected(f) && len(roots) < 2 {
 				for _, m := range f.Unit.Members {
 					if m.Kind == "method" {
@@ -529,14 +532,28 @@ func overloadsOnOneLine(r *rand.Rand) javagen.File {
 	f := javagen.File{Id: "ovl", PathKind: "main", Dirs: "ovl", Pkg: "ovl"}
 	f.Unit = javagen.Unit{Kind: "class", Name: "Store"}
 	m1 := javagen.Member{Kind: "method", Name: "put", Type: "void", Mods: []string{"public"}, Params: []javagen.Param{{Type: "int", Name: "a"}},
-		Body: []javagen.Stmt{callStmt("none", "", "save")}}
+		Body: []javagen.Stmt{callStmt("none", "", "save")}, OneLine: true}
 	m2 := javagen.Member{Kind: "method", Name: "put", Type: "void", Mods: []string{"public"}, Params: []javagen.Param{{Type: "String", Name: "s"}},
-		Body: []javagen.Stmt{callStmt("none", "", "flush")}, SameLine: true}
+		Body: []javagen.Stmt{callStmt("none", "", "flush")}, SameLine: true, OneLine: true}
 	f.Unit.Members = []javagen.Member{
 		{Kind: "method", Name: "save", Type: "void", Mods: []string{"public"}},
 		{Kind: "method", Name: "flush", Type: "void", Mods: []string{"public"}},
 		m1, m2,
 		{Kind: "method", Name: "caller", Type: "void", Mods: []string{"public"}, Body: []javagen.Stmt{callStmt("none", "", "put", javagen.Expr{K: "lit", Text: "1"})}},
+	}
+	return f
+}
+
+// a *Service class whose methods return project classes and share first words (lifecycle / same-return-type summaries)
+func serviceFile(r *rand.Rand) javagen.File {
+	f := javagen.File{Id: "svc", PathKind: "main", Dirs: "ovl", Pkg: "ovl"}
+	f.Unit = javagen.Unit{Kind: "class", Name: "StoreService"}
+	for i, n := range []string{"loadStore", "loadAll", "saveStore", "saveAll", "findStore"} {
+		if r.Intn(4) == 0 && i > 1 {
+			continue
+		}
+		f.Unit.Members = append(f.Unit.Members, javagen.Member{Kind: "method", Name: n, Type: "Store", Mods: []string{"public"},
+			Body: []javagen.Stmt{{K: "return", E: &javagen.Expr{K: "lit", Text: "null"}}}})
 	}
 	return f
 }
@@ -581,7 +598,7 @@ func gen(seed int64, n int, tier string) []interface{} {
 			continue
 		}
 		p := javaproj.Gen(r, true)
-		p.Files = append(p.Files, overloadsOnOneLine(r), junitFile(r))
+		p.Files = append(p.Files, overloadsOnOneLine(r), junitFile(r), serviceFile(r))
 		out = append(out, Case{Case: fmt.Sprintf("java-%d-%d", seed, k), Kind: "java", Files: p.Files, Layout: p.Layout, N: runs, History: []GitCommit{}})
 	}
 	return out
